@@ -367,8 +367,9 @@ VNAMES = ['va', 'vb', 'vc', 'vd', 've', 'vf', 'vg', 'vh']
 class Choose(Sub):
     name = 'c18.choose'
     rule = ('CHOOSE(i, v1..vn) for every n of the bound, value kind (numbers 10k, text, alternating), value '
-            'and index delivery (literal / variable), every i in -10..n+10 and 254..256; non-trivial = i '
-            'outside 1..n')
+            'and index delivery (literal / variable), every i in -10..n+10 and 254..256; kinds e / f: every other choice '
+            'is an error value (1/0, NA(), FACT(-1)) - the selected choice is the answer whatever the others are; '
+            'non-trivial = i outside 1..n, or errors among the choices')
     min_cases = 40
     min_nontrivial = 500
     min_classes = 2
@@ -380,6 +381,10 @@ class Choose(Sub):
                 for idl in ('lit', 'var'):
                     for vdl in ('lit', 'var'):
                         yield [n, et, idl, vdl]
+            if n > 1:
+                for idl in ('lit', 'var'):
+                    yield [n, 'e', idl, 'lit']
+                    yield [n, 'f', idl, 'lit']
 
     @staticmethod
     def values(n, et):
@@ -392,8 +397,38 @@ class Choose(Sub):
         return vs
 
     def one(self, env, n, et, idl, vdl, i):
-        vs = self.values(n, et)
         vars_ = {}
+        if et in ('e', 'f'):
+            # every other choice is an error value (written as a formula): the selected choice is the answer, an error among
+            # the others does not matter, a selected error is that error
+            errs = (('1/0', '#DIV/0!'), ('NA()', '#N/A'), ('FACT(-1)', '#NUM!'))
+            args, want = [], []
+            for k in range(1, n + 1):
+                if (k % 2 == 0) == (et == 'e'):
+                    args.append(errs[k % 3][0])
+                    want.append(['e', errs[k % 3][1]])
+                else:
+                    args.append(lit(10 * k))
+                    want.append(['v', 10 * k])
+            ia = lit(i)
+            if idl == 'var':
+                vars_['xi'] = i
+                ia = 'xi'
+            f = 'CHOOSE(%s,%s)' % (ia, ','.join(args))
+            o = env.evo(f, vars_)
+            narrow = ['one', n, et, idl, vdl, i]
+            if 1 <= i <= n:
+                env.note('inside-among-errors')
+                env.nt()
+                w = want[i - 1]
+                if not (o[0] == w[0] and (same(o[1], w[1]) if w[0] == 'v' else o[1] == w[1])):
+                    return fail('%s%s = %r, expected choice %d = %r (an error among the other choices is not the answer)' % (
+                        f, ' with xi=%d' % i if idl == 'var' else '', o, i, w), w, o, case=narrow)
+            elif o[0] != 'e':
+                return fail('%s%s = %r, expected an error value (index outside 1..%d)' % (
+                    f, ' with xi=%d' % i if idl == 'var' else '', o, n), ['e', 'any'], o, case=narrow)
+            return None
+        vs = self.values(n, et)
         if vdl == 'var':
             for k, v in enumerate(vs):
                 vars_[VNAMES[k]] = v
@@ -552,7 +587,8 @@ XS = [k / 2.0 if k % 2 else k // 2 for k in range(-4, 9)]     # -2, -1.5, ... 4
 class MatchSorted(Sub):
     name = 'c18.match_sorted'
     rule = ('MATCH(x, a, 1) on every non-decreasing and MATCH(x, a, -1) on every non-increasing array of the '
-            'bounded length over {-1,0,1,2,3} x every x in -2..4 step 0.5 x deliveries; expected = any position '
+            'bounded length over {-1,0,1,2,3} x every x in -2..4 step 0.5 x deliveries, and on every sorted array of up to 3 '
+            'one-letter texts of one letter case (A..D / a..d) x 7 lookup texts of the same case; expected = any position '
             'holding the largest item <= x (smallest item >= x), else #N/A; non-trivial = array has a '
             'duplicate, or x lies strictly between / outside the items')
     min_cases = 500
@@ -567,6 +603,13 @@ class MatchSorted(Sub):
                     items = list(items) if mt == 1 else list(reversed(items))
                     for dl in FLAT_DL + NESTED_DL:
                         yield [mt, items, dl]
+            # sorted text of ONE letter case (so that every ordering of text - by code point, case-blind - agrees)
+            for letters in ('ABCD', 'abcd'):
+                for n in range(1, 4):
+                    for items in itertools.combinations_with_replacement(letters, n):
+                        items = list(items) if mt == 1 else list(reversed(items))
+                        for dl in ('var', 'litc', 'rngcol'):
+                            yield [mt, items, dl]
 
     def one(self, env, mt, items, dl, xdl, x):
         vars_ = {}
@@ -603,7 +646,10 @@ class MatchSorted(Sub):
             return self.one(env, *case[1:])
         mt, items, dl = case
         out = []
-        for x in XS:
+        xs = XS
+        if isinstance(items[0], str):
+            xs = ['A', 'AA', 'B', 'BZ', 'C', 'D', 'E'] if items[0].isupper() else ['a', 'aa', 'b', 'bz', 'c', 'd', 'e']
+        for x in xs:
             for xdl in ('lit', 'var'):
                 r = self.one(env, mt, items, dl, xdl, x)
                 if r and len(out) < 6:
